@@ -1500,12 +1500,18 @@ def emit_stack(i, stack, extra=""):
     tail2 = {"q": '  t1 << " | q"; for (auto x : LOG.idx) t1 << " " << x;\n',
              "n": '  t1 << " | n " << LOG.count; for (auto x : LOG.last) t1 << " " << x;\n', None: ""}[pk]
     ext = " + t1.str()" if pk else ""
+    # a view has no memory: after a lookup somewhere else (the previous line's coordinate) the same coordinate gets the same answer
+    again = ("  static std::vector<u64> prev_;\n  if (prev_.size() == in.coord.size()) {\n    @@MKPREV@@\n    (void)v.at(cp); auto rb = v.at(c);\n"
+             f"    if (out(rb, {M}) != out(r1, {M})) {{ std::cerr << \"Assertion `a view answers a coordinate the same way after another lookup' failed: \" "
+             f"<< out(rb, {M}) << \" vs \" << out(r1, {M}) << std::endl; std::abort(); }}\n  }}\n  prev_ = in.coord;\n")
     if bare:
-        at = (f"  auto c = fromb<{ct}>(in.coord[0]);\n  {reset}auto r1 = v.at(c);\n{tail1}  return out(r1, {M}){ext};\n")
+        again = again.replace("@@MKPREV@@", f"auto cp = fromb<{ct}>(prev_[0]);")
+        at = (f"  auto c = fromb<{ct}>(in.coord[0]);\n  {reset}auto r1 = v.at(c);\n{tail1}{again}  return out(r1, {M}){ext};\n")
     else:
+        again = again.replace("@@MKPREV@@", f"auto cp = vec<typename field<B>::coordinate_t, {ct}, {N}>(prev_, 0);")
         args = ", ".join(f"fromb<{ct}>(in.coord[{k}])" for k in range(N))
         at = (f"  auto c = vec<typename field<B>::coordinate_t, {ct}, {N}>(in.coord, 0);\n  {reset}auto r1 = v.at(c);\n{tail1}"
-              f"  {reset}auto r2 = v.at({args});\n{tail2}  return out(r1, {M}) + \" | \" + out(r2, {M}){ext};\n")
+              f"  {reset}auto r2 = v.at({args});\n{tail2}{again}  return out(r1, {M}) + \" | \" + out(r2, {M}){ext};\n")
     return (f"namespace s{i} {{\n{log}" + "\n".join(lines) + f"\nusing B = {B};\nstatic std::unique_ptr<field<B>> F;\n"
             f"std::string setup(const In & in) {{\n  F = std::make_unique<field<B>>(make_parameter_pack({', '.join(parts)}));\n  return \"ok\";\n}}\n"
             f"std::string at(const In & in) {{\n  if (!F) return \"nosetup\";\n  typename field<B>::view_t v(*F);\n"
